@@ -49,6 +49,16 @@ def install(E):
         return s.check() == z3.unsat
     M["prove-nonneg"] = prove_nonneg
 
+    def prove_nonneg_cheap(ctx, z):
+        """Same, from the string-free facts of the path only (fast)."""
+        sol = z3.Solver()
+        sol.set("timeout", 500)
+        for p in ctx.dec:
+            sol.add(p)
+        sol.add(z < 0)
+        return sol.check() == z3.unsat
+    M["prove-nonneg-cheap"] = prove_nonneg_cheap
+
     # ---- builtins ----------------------------------------------------------------------
     def b_len(ctx, args, kw):
         (v,) = args
@@ -135,6 +145,11 @@ def install(E):
                 if not ctx.feasible():
                     from .values import Infeasible
                     raise Infeasible()
+                # valid in the string theory, stated for the solvers
+                canon = z3.Union(z3.Re(z3.StringVal("0")), z3.Concat(z3.Range("1", "9"), z3.Star(z3.Range("0", "9"))))
+                ctx.assume(z3.StrToInt(v.z) >= 0)
+                ctx.assume(z3.Implies(z3.InRe(v.z, canon), z3.IntToStr(z3.StrToInt(v.z)) == v.z))
+                ctx.assume(z3.Implies(z3.And(z3.Length(v.z) == 2, z3.InRe(v.z, canon)), z3.And(z3.StrToInt(v.z) >= 10, z3.StrToInt(v.z) <= 99)))
                 return VInt(z3.StrToInt(v.z))
             if k == 1:
                 ctx.assume(z3.Not(digits))
@@ -348,6 +363,8 @@ def install(E):
             head = sl[:-1]
             probe = z3.Concat(a, z3.StringVal(head)) if head else a
             ctx.assume(z3.Not(z3.Contains(probe, sep.z)))
+            # consequence of the two facts above, stated for the solvers: that is the first occurrence
+            ctx.assume(z3.IndexOf(s.z, sep.z, 0) == z3.Length(a))
         else:
             ctx.assume(z3.IndexOf(s.z, sep.z, 0) == z3.Length(a))
         return same(s, a), same(s, b)
@@ -426,6 +443,32 @@ def install(E):
         if h is None:
             raise Unsupported("no codec model installed")
         return h(ctx, s, args, kw)
+
+    def m_removesuffix(ctx, s, args, kw):
+        suf = args[0]
+        n = z3.Length(s.z) - z3.Length(suf.z)
+        return same(s, z3.If(z3.SuffixOf(suf.z, s.z), z3.SubString(s.z, 0, n), s.z))
+
+    def m_removeprefix(ctx, s, args, kw):
+        pre = args[0]
+        return same(s, z3.If(z3.PrefixOf(pre.z, s.z), z3.SubString(s.z, z3.Length(pre.z), z3.Length(s.z)), s.z))
+
+    def m_partition(ctx, s, args, kw):
+        sep = args[0]
+        if ctx.branch(z3.Contains(s.z, sep.z), "partition:contains"):
+            a, b = split_once(ctx, s, sep, "part")
+            return VTuple([a, sep, b])
+        return VTuple([s, same(s, z3.StringVal("")), same(s, z3.StringVal(""))])
+
+    def m_isdigit(ctx, s, args, kw):
+        E.use_assumption("PY-isdigit: str.isdigit() modelled for ASCII digits only")
+        return VBool(z3.InRe(s.z, z3.Plus(z3.Range("0", "9"))))
+
+    for kind in ("str", "bytes"):
+        M[(kind, "removesuffix")] = m_removesuffix
+        M[(kind, "removeprefix")] = m_removeprefix
+        M[(kind, "partition")] = m_partition
+    M[("str", "isdigit")] = m_isdigit
 
     for kind in ("str", "bytes"):
         M[(kind, "startswith")] = m_startswith
